@@ -63,8 +63,10 @@ def _case(draw, tier):
         if rest:
             pipe.append({"op": "evidence", "a": 1, "obs": opcheck.draw_obs(draw, dom, rest)})
     elif shape == "concat":
-        order = draw(st.permutations(list(range(len(bases)))))
-        pipe.append({"op": "concatenate", "as": list(order)})
+        order = list(draw(st.permutations(list(range(len(bases))))))
+        if draw(st.integers(0, 2)) == 0:  # the same operand may occur twice
+            order.insert(draw(st.integers(0, len(order))), draw(st.sampled_from(order)))
+        pipe.append({"op": "concatenate", "as": order})
     else:
         nb = len(bases)
         obs = opcheck.draw_obs(draw, dom, scope)
